@@ -708,10 +708,22 @@ def region_acosh_lost_imag(case):
     if case["fn"] not in ("acosh", "asech") or case["a"][0] != "mpc":
         return False
     re, im = _parts(case)
-    return im[1] != 0 and re[1] != 0 and _top(im) < _top(re) - case["p"] + 10
+    return im[1] != 0 and _top(im) < max(_top(re), 0) - case["p"] + 10
+
+
+def region_log_near_unit_circle(case):
+    """log of a complex number with | |z|^2 - 1 | < 2^-20: the real part log|z| loses a few bits (2^5 ulp seen)"""
+    if case["fn"] not in ("ln", "log", "log10") or case["a"][0] != "mpc":
+        return False
+    re, im = _parts(case)
+    if any(t[1] and abs(t[2]) > 20000 for t in (re, im)):
+        return False
+    v = exact.to_fraction(re) ** 2 + exact.to_fraction(im) ** 2 - 1
+    return abs(v) < exact.Fraction(1, 1 << 20)
 
 
 REGIONS = {
+    "log_near_unit_circle": region_log_near_unit_circle,
     "acosh_lost_imag": region_acosh_lost_imag,
     "inv_small_complex": region_inv_small_complex,
     "inv_recip_near_unit": region_inv_recip_near_unit,
